@@ -217,6 +217,16 @@ func Observer[T any](r *Rec) ro.Observer[T] {
 	)
 }
 
+// Add appends an event directly (used by Tap-style probes that are not observers).
+//
+//go:norace
+func (r *Rec) Add(e Ev) {
+	if vrt.Aborting() {
+		return
+	}
+	r.Log = append(r.Log, Entry{Ev: e, Thread: vrt.Self(), In: vrt.Tick(), T: vrt.NowNS()})
+}
+
 // Events returns the recorded notifications.
 //
 //go:norace
